@@ -765,9 +765,16 @@ pub fn supervise(id: &'static str) {
         }
     };
     if let Some(code) = status.code() {
-        let _ = std::fs::remove_dir_all(&dir);
-        std::process::exit(code);
+        if code == 0 || code == 1 || code == 2 {
+            let _ = std::fs::remove_dir_all(&dir);
+            std::process::exit(code);
+        }
     }
+    // Any other exit code (101: a panic outside the judged sections, i.e. the code under test
+    // broke an assumption the harness makes about valid behaviour - an encoder that fails on a
+    // valid value, a constructor that rejects a valid argument ...) is reported like a kill by a
+    // signal: on the unchanged tree neither happens, so the change to /repo caused it.
+    let exit_code = status.code();
     // killed by a signal: collect what the workers were running
     #[cfg(unix)]
     let sig = {
@@ -790,11 +797,14 @@ pub fn supervise(id: &'static str) {
     let root = verif_root();
     let rdir = root.join("replays");
     let _ = std::fs::create_dir_all(&rdir);
-    let key = format!("crash:process-aborted:signal-{sig}");
+    let key = match exit_code {
+        Some(c) => format!("crash:check-process-panicked:exit-{c}"),
+        None => format!("crash:process-aborted:signal-{sig}"),
+    };
     let body = json!({
         "property": id,
         "key": key,
-        "what": "the check process was killed by a signal (stack overflow / abort in the code under test) while running one of these cases",
+        "what": "the check process died (signal: stack overflow / abort in the code under test; exit code 101: a panic outside the judged sections, see stderr) while running one of these cases",
         "case": {"crashed_cases": cases},
         "replay_cmd": format!("./check {id} --replay <this file>"),
     });
@@ -802,7 +812,7 @@ pub fn supervise(id: &'static str) {
     let p = rdir.join(format!("{}-{:016x}.json", id, fnv64(txt.as_bytes())));
     let _ = std::fs::write(&p, txt);
     println!(
-        "VIOLATION property={} replay={} key={} -- the code under test killed the process (stack overflow or abort): no termination",
+        "VIOLATION property={} replay={} key={} -- the code under test killed the check process (stack overflow, abort, or a panic outside the judged sections: see stderr)",
         id,
         p.display(),
         key
